@@ -26,6 +26,8 @@ def classify(r, entry, src, target, extra=None):
                 "detail": r["panic"].get("msg", "")[:300]}
     if "abort" in r:
         fam = (extra or {}).get("family", "input")
+        if extra and "n" in extra:
+            fam += "@n>=256" if extra["n"] >= 256 else "@n<256"
         return {"property": "C12", "symptom": "abort:" + r["abort"].get("kind", "?"), "shape": "%s:%s" % (entry, fam), "witness": wit,
                 "detail": "exit %s: %s" % (r["abort"].get("returncode"), r["abort"].get("stderr", "")[-200:])}
     if r.get("ok") is False and r.get("empty_reason"):
